@@ -195,7 +195,7 @@ class Interp(MiniEval):
         self.stubs = stubs or {}
         self.depth = depth
         self.shared = shared if shared is not None else {'steps': 0}
-        self.loop_cap = 200
+        self.loop_cap = self.shared.get('loop_cap', 200)
 
     # ---- names / attributes --------------------------------------------------------------------------
     def lookup_module_name(self, mod, name):
@@ -521,6 +521,8 @@ class Interp(MiniEval):
                         raise Unsupported(f'regex outside the matcher: {e}')
                 return apply_
             cq = object.__getattribute__(base, '_cls')
+            if cq and attr == '__class__':
+                return PkgClass(cq)
             if cq:
                 # methods and class-level attributes, class by class along the MRO (a function kept in a class attribute is a
                 # method: it is bound to the instance it is read from)
@@ -797,6 +799,12 @@ class Interp(MiniEval):
                     concrete = not any(isinstance(a_, (Obj, Sym)) for a_ in list(args) + list(kwargs.values()))
                     if not hasattr(base, e.func.attr):
                         raise Raised('AttributeError')       # e.g. .lower() on a list-valued attribute
+                    if e.func.attr in ('extend', 'update', 'union', 'intersection', 'difference', 'issubset', 'issuperset',
+                                       'isdisjoint', 'join', 'symmetric_difference', 'intersection_update',
+                                       'difference_update') and not isinstance(base, dict):
+                        # an iterable package object handed to a container method: drawn through its own __iter__
+                        args = [self.iterate(a_) if isinstance(a_, Obj) and self.dunder(a_, '__iter__') is not None else a_
+                                for a_ in args]
                     try:
                         return getattr(base, e.func.attr)(*args, **kwargs)
                     except (ValueError, KeyError, IndexError) as x:
